@@ -158,12 +158,16 @@ Proof.
   unfold axis_ok. rewrite !andb_true_iff, negb_true_iff, orb_true_iff, Z.leb_le, Z.eqb_neq. tauto.
 Qed.
 
+Lemma window_ok_facts w0 wn n : window_ok w0 wn n = true -> 0 <= w0 /\ 1 <= wn /\ w0 + wn <= n.
+Proof. unfold window_ok. rewrite !andb_true_iff, !Z.leb_le. tauto. Qed.
+
 Lemma cube_ok_facts c : cube_ok c = true ->
   axis_ok (c_il0 c) (c_ils c) (c_iln c) (c_i32 c) = true /\ axis_ok (c_xl0 c) (c_xls c) (c_xln c) (c_i32 c) = true /\
-  c_iln c * c_xln c < two32.
+  window_ok (c_wil0 c) (c_wiln c) (c_iln c) = true /\ window_ok (c_wxl0 c) (c_wxln c) (c_xln c) = true /\
+  c_wiln c * c_wxln c < two32.
 Proof. unfold cube_ok. rewrite !andb_true_iff, Z.ltb_lt. tauto. Qed.
 
-Lemma count_fits n m : 2 <= n -> 2 <= m -> n * m < two32 -> 0 <= n < two32 /\ 0 <= m < two32 /\ 0 <= n * m.
+Lemma count_fits n m : 1 <= n -> 1 <= m -> n * m < two32 -> 0 <= n < two32 /\ 0 <= m < two32 /\ 0 <= n * m.
 Proof.
   intros Hn Hm H.
   assert (n * 1 <= n * m) by (apply Z.mul_le_mono_nonneg_l; lia).
@@ -177,34 +181,74 @@ Proof. intros H. unfold pack_u. replace (0 <=? z) with true by (symmetry; apply 
 Lemma pack_i_ok z : int32_ok z = true -> pack_i z = Return (u32 z).
 Proof. intros H. unfold pack_i. rewrite H. reflexivity. Qed.
 
-Lemma geom_len n : 0 <= n -> Z.of_nat (Datatypes.length (map VZ (zrange 0 n))) = n.
+Lemma geom_len w0 wn : 0 <= wn -> Z.of_nat (Datatypes.length (map VZ (zrange w0 (w0 + wn)))) = wn.
 Proof. intros H. rewrite map_length. rewrite zrange_length; lia. Qed.
 
-(* first line number: bytes 24:28 (inlines), 20:24 (crosslines) hold the two's complement of the first element *)
-Lemma first_line_written i32 a s n p :
-  axis_ok a s n i32 = true ->
-  bind match nth_error (map (mk_line i32) (axis a s n)) (Z.to_nat 0) with Some v => Return v | None => Raise IndexErr end
-       (pack p) = pack p (mk_line i32 a).
+Lemma nth_error_zrange_nat lo m i : (i < m)%nat -> nth_error (zrange_nat lo m) i = Some (lo + Z.of_nat i).
 Proof.
-  intros H. apply axis_ok_facts in H. destruct H as (Hn & _).
-  destruct (axis_two a s n Hn) as [r Hr]. rewrite Hr. reflexivity.
+  revert lo i. induction m as [| m IH]; intros lo i Hi; [lia |].
+  destruct i as [| i]; cbn [zrange_nat nth_error].
+  - f_equal. lia.
+  - rewrite IH by lia. f_equal. lia.
 Qed.
 
-Lemma wr_field_24_cube c : cube_ok c = true -> eval_fv (env_of_cube c) wr_field_24 = Return (u32 (c_il0 c)).
+Lemma nth_error_zrange lo hi k : 0 <= k < hi - lo -> nth_error (zrange lo hi) (Z.to_nat k) = Some (lo + k).
+Proof. intros H. unfold zrange. rewrite nth_error_zrange_nat by lia. f_equal. lia. Qed.
+
+Lemma nth_error_axis a s n k : 0 <= k < n -> nth_error (axis a s n) (Z.to_nat k) = Some (a + s * k).
 Proof.
-  intros Hok. apply cube_ok_facts in Hok. destruct Hok as (Hil & _ & _).
-  unfold wr_field_24. cbn [eval_fv eval_cond eval bind env_of_cube e_flag e_arr e_idx e_var negb]. unfold c_ilines.
-  rewrite (first_line_written _ _ _ _ _ Hil).
-  apply axis_ok_facts in Hil. destruct Hil as (_ & _ & Ha & _).
+  intros H. unfold axis. rewrite (map_nth_error _ _ _ (nth_error_zrange 0 n k ltac:(lia))). reflexivity.
+Qed.
+
+(* first line number: bytes 24:28 (inlines), 20:24 (crosslines) hold the two's complement of the source axis at the first
+   ordinal of the converted window, `ilines[geom.ilines[0]]` *)
+Lemma first_line_written i32 a s n w0 wn p :
+  axis_ok a s n i32 = true -> window_ok w0 wn n = true ->
+  bind (bind match nth_error (map VZ (zrange w0 (w0 + wn))) (Z.to_nat 0) with Some v => Return v | None => Raise IndexErr end
+          (fun iv => match iv with
+                     | VZ k | VI32 k =>
+                         if k <? 0 then Raise OtherErr
+                         else match nth_error (map (mk_line i32) (axis a s n)) (Z.to_nat k) with
+                              | Some v => Return v | None => Raise IndexErr end
+                     | VF _ => Raise IndexErr
+                     end))
+       (pack p) = pack p (mk_line i32 (a + s * w0)).
+Proof.
+  intros _ Hw. apply window_ok_facts in Hw. destruct Hw as (Hw0 & Hwn & Hwe).
+  rewrite (map_nth_error _ _ _ (nth_error_zrange w0 (w0 + wn) 0 ltac:(lia))). cbn [bind].
+  replace (w0 + 0) with w0 by ring.
+  replace (w0 <? 0) with false by (symmetry; apply Z.ltb_ge; lia).
+  rewrite (map_nth_error _ _ _ (nth_error_axis a s n w0 ltac:(lia))). reflexivity.
+Qed.
+
+Lemma window_first_ok a s n w0 wn i32 :
+  axis_ok a s n i32 = true -> window_ok w0 wn n = true ->
+  forall k, 0 <= k < wn -> int32_ok (a + s * w0 + s * k) = true.
+Proof.
+  intros Ha Hw k Hk. apply axis_ok_facts in Ha. destruct Ha as (_ & _ & Ha & Hb & _).
+  apply window_ok_facts in Hw. replace (a + s * w0 + s * k) with (a + s * (w0 + k)) by ring.
+  apply (axis_elem_ok a s n (w0 + k) Ha Hb). lia.
+Qed.
+
+Lemma wr_field_24_cube c : cube_ok c = true ->
+  eval_fv (env_of_cube c) wr_field_24 = Return (u32 (c_il0 c + c_ils c * c_wil0 c)).
+Proof.
+  intros Hok. apply cube_ok_facts in Hok. destruct Hok as (Hil & _ & Hw & _ & _).
+  unfold wr_field_24. cbn [eval_fv eval_cond eval bind env_of_cube e_flag e_arr e_idx e_var negb]. unfold c_src_ilines.
+  rewrite (first_line_written _ _ _ _ _ _ _ Hil Hw).
+  pose proof (window_first_ok _ _ _ _ _ _ Hil Hw 0 ltac:(apply window_ok_facts in Hw; lia)) as Ha.
+  replace (c_il0 c + c_ils c * c_wil0 c + c_ils c * 0) with (c_il0 c + c_ils c * c_wil0 c) in Ha by ring.
   destruct (c_i32 c); cbn [mk_line pack astype_int bind]; apply pack_i_ok; exact Ha.
 Qed.
 
-Lemma wr_field_20_cube c : cube_ok c = true -> eval_fv (env_of_cube c) wr_field_20 = Return (u32 (c_xl0 c)).
+Lemma wr_field_20_cube c : cube_ok c = true ->
+  eval_fv (env_of_cube c) wr_field_20 = Return (u32 (c_xl0 c + c_xls c * c_wxl0 c)).
 Proof.
-  intros Hok. apply cube_ok_facts in Hok. destruct Hok as (_ & Hxl & _).
-  unfold wr_field_20. cbn [eval_fv eval_cond eval bind env_of_cube e_flag e_arr e_idx e_var negb]. unfold c_xlines.
-  rewrite (first_line_written _ _ _ _ _ Hxl).
-  apply axis_ok_facts in Hxl. destruct Hxl as (_ & _ & Ha & _).
+  intros Hok. apply cube_ok_facts in Hok. destruct Hok as (_ & Hxl & _ & Hw & _).
+  unfold wr_field_20. cbn [eval_fv eval_cond eval bind env_of_cube e_flag e_arr e_idx e_var negb]. unfold c_src_xlines.
+  rewrite (first_line_written _ _ _ _ _ _ _ Hxl Hw).
+  pose proof (window_first_ok _ _ _ _ _ _ Hxl Hw 0 ltac:(apply window_ok_facts in Hw; lia)) as Ha.
+  replace (c_xl0 c + c_xls c * c_wxl0 c + c_xls c * 0) with (c_xl0 c + c_xls c * c_wxl0 c) in Ha by ring.
   destruct (c_i32 c); cbn [mk_line pack astype_int bind]; apply pack_i_ok; exact Ha.
 Qed.
 
@@ -234,8 +278,8 @@ Qed.
 Lemma wr_field_36_cube c : cube_ok c = true ->
   exists T, eval_fv (env_of_cube c) wr_field_36 = Return T /\ exists q, T = c_ils c + two32 * q.
 Proof.
-  intros Hok. apply cube_ok_facts in Hok. destruct Hok as (Hil & _ & _).
-  unfold wr_field_36. cbn [eval_fv eval_cond eval bind env_of_cube e_flag e_arr e_idx e_var negb]. unfold c_ilines.
+  intros Hok. apply cube_ok_facts in Hok. destruct Hok as (Hil & _).
+  unfold wr_field_36. cbn [eval_fv eval_cond eval bind env_of_cube e_flag e_arr e_idx e_var negb]. unfold c_src_ilines.
   exact (step_written _ _ _ _ Hil).
 Qed.
 
@@ -243,34 +287,34 @@ Lemma wr_field_32_cube c : cube_ok c = true ->
   exists T, eval_fv (env_of_cube c) wr_field_32 = Return T /\ exists q, T = c_xls c + two32 * q.
 Proof.
   intros Hok. apply cube_ok_facts in Hok. destruct Hok as (_ & Hxl & _).
-  unfold wr_field_32. cbn [eval_fv eval_cond eval bind env_of_cube e_flag e_arr e_idx e_var negb]. unfold c_xlines.
+  unfold wr_field_32. cbn [eval_fv eval_cond eval bind env_of_cube e_flag e_arr e_idx e_var negb]. unfold c_src_xlines.
   exact (step_written _ _ _ _ Hxl).
 Qed.
 
 (* counts and trace count *)
 Lemma cube_counts c : cube_ok c = true ->
-  0 <= c_iln c < two32 /\ 0 <= c_xln c < two32 /\ 0 <= c_iln c * c_xln c < two32.
+  0 <= c_wiln c < two32 /\ 0 <= c_wxln c < two32 /\ 0 <= c_wiln c * c_wxln c < two32.
 Proof.
-  intros Hok. apply cube_ok_facts in Hok. destruct Hok as (Hil & Hxl & Hn).
-  apply axis_ok_facts in Hil. apply axis_ok_facts in Hxl.
-  pose proof (count_fits (c_iln c) (c_xln c) ltac:(tauto) ltac:(tauto) Hn). lia.
+  intros Hok. apply cube_ok_facts in Hok. destruct Hok as (_ & _ & Hwi & Hwx & Hn).
+  apply window_ok_facts in Hwi. apply window_ok_facts in Hwx.
+  pose proof (count_fits (c_wiln c) (c_wxln c) ltac:(tauto) ltac:(tauto) Hn). lia.
 Qed.
 
-Lemma wr_field_12_cube c : cube_ok c = true -> eval_fv (env_of_cube c) wr_field_12 = Return (c_iln c).
+Lemma wr_field_12_cube c : cube_ok c = true -> eval_fv (env_of_cube c) wr_field_12 = Return (c_wiln c).
 Proof.
   intros Hok. pose proof (cube_counts c Hok) as (Hi & Hx & Ht).
   unfold wr_field_12. cbn [eval_fv eval_cond eval bind env_of_cube e_flag e_arr e_idx e_var negb pack].
   rewrite geom_len by lia. apply pack_u_ok; lia.
 Qed.
 
-Lemma wr_field_8_cube c : cube_ok c = true -> eval_fv (env_of_cube c) wr_field_8 = Return (c_xln c).
+Lemma wr_field_8_cube c : cube_ok c = true -> eval_fv (env_of_cube c) wr_field_8 = Return (c_wxln c).
 Proof.
   intros Hok. pose proof (cube_counts c Hok) as (Hi & Hx & Ht).
   unfold wr_field_8. cbn [eval_fv eval_cond eval bind env_of_cube e_flag e_arr e_idx e_var negb pack].
   rewrite geom_len by lia. apply pack_u_ok; lia.
 Qed.
 
-Lemma wr_field_68_cube c : cube_ok c = true -> eval_fv (env_of_cube c) wr_field_68 = Return (c_iln c * c_xln c).
+Lemma wr_field_68_cube c : cube_ok c = true -> eval_fv (env_of_cube c) wr_field_68 = Return (c_wiln c * c_wxln c).
 Proof.
   intros Hok. pose proof (cube_counts c Hok) as (Hi & Hx & Ht).
   unfold wr_field_68. cbn [eval_fv eval_cond eval bind env_of_cube e_flag e_arr e_idx e_var negb orb arith pack].
@@ -338,15 +382,15 @@ Proof.
   reflexivity.
 Qed.
 
-Lemma regen_axis a s n S T N i32 :
-  axis_ok a s n i32 = true -> S = u32 a -> (exists q, T = s + two32 * q) -> N = n ->
+Lemma regen_axis a s n S T N :
+  (forall k, 0 <= k < n -> int32_ok (a + s * k) = true) -> S = u32 a -> (exists q, T = s + two32 * q) -> N = n ->
   mapM (fun k => Return (VI32 (wrap32 (wrap64 (S + wrap64 (T * k)))))) (zrange 0 N) = Return (map VI32 (axis a s n)).
 Proof.
-  intros Hok -> HT ->. apply axis_ok_facts in Hok. destruct Hok as (Hn & _ & Ha & Hb & _).
+  intros Hok -> HT ->.
   unfold axis. rewrite map_map. apply mapM_Return_map.
   intros k Hk. apply in_zrange in Hk. do 2 f_equal.
   apply axis_roundtrip; [apply u32_cong | exact HT |].
-  apply (axis_elem_ok a s n k Ha Hb). lia.
+  apply Hok. lia.
 Qed.
 
 (* ================================================================== 5. inline and crossline axes are preserved *)
@@ -360,8 +404,9 @@ Proof.
   rewrite (wr_field_12_cube c Hok) in H12. rewrite (wr_field_24_cube c Hok) in H24.
   destruct (wr_field_36_cube c Hok) as (T & HT & Hq). rewrite HT in H36.
   injection H12 as H12. injection H24 as H24. injection H36 as H36.
-  rewrite rd_axis_ilines_char. apply cube_ok_facts in Hok. destruct Hok as (Hil & _ & _).
-  apply (regen_axis _ _ _ _ _ _ _ Hil); [symmetry; exact H24 | rewrite <- H36; exact Hq | symmetry; exact H12].
+  rewrite rd_axis_ilines_char. apply cube_ok_facts in Hok. destruct Hok as (Hil & _ & Hw & _ & _).
+  apply regen_axis; [exact (window_first_ok _ _ _ _ _ _ Hil Hw) | symmetry; exact H24 | rewrite <- H36; exact Hq
+                    | symmetry; exact H12].
 Qed.
 
 Theorem xlines_preserved c E :
@@ -374,16 +419,23 @@ Proof.
   rewrite (wr_field_8_cube c Hok) in H8. rewrite (wr_field_20_cube c Hok) in H20.
   destruct (wr_field_32_cube c Hok) as (T & HT & Hq). rewrite HT in H32.
   injection H8 as H8. injection H20 as H20. injection H32 as H32.
-  rewrite rd_axis_xlines_char. apply cube_ok_facts in Hok. destruct Hok as (_ & Hxl & _).
-  apply (regen_axis _ _ _ _ _ _ _ Hxl); [symmetry; exact H20 | rewrite <- H32; exact Hq | symmetry; exact H8].
+  rewrite rd_axis_xlines_char. apply cube_ok_facts in Hok. destruct Hok as (_ & Hxl & _ & Hw & _).
+  apply regen_axis; [exact (window_first_ok _ _ _ _ _ _ Hxl Hw) | symmetry; exact H20 | rewrite <- H32; exact Hq
+                    | symmetry; exact H8].
 Qed.
+
+(* a whole-source conversion reports the source's axes themselves *)
+Lemma whole_cube_axes il0 ils iln xl0 xls xln i32 l :
+  c_ilines (whole_cube il0 ils iln xl0 xls xln i32 l) = axis il0 ils iln /\
+  c_xlines (whole_cube il0 ils iln xl0 xls xln i32 l) = axis xl0 xls xln.
+Proof. unfold c_ilines, c_xlines, whole_cube. cbn. split; f_equal; ring. Qed.
 
 (* ================================================================== 6. trace count and structured flag
    (rd_tracecount, rd_n_ilines, rd_n_xlines are GENERATED in Gen/Reader.v, rd_structured in Gen/Geometry.v) *)
 Theorem tracecount_preserved c H :
   cube_ok c = true ->
   written c 8 (h_u32_8 H) -> written c 12 (h_u32_12 H) -> written c 68 (h_u32_68 H) ->
-  rd_n_ilines H = c_iln c /\ rd_n_xlines H = c_xln c /\ rd_tracecount H = c_iln c * c_xln c.
+  rd_n_ilines H = c_wiln c /\ rd_n_xlines H = c_wxln c /\ rd_tracecount H = c_wiln c * c_wxln c.
 Proof.
   intros Hok H8 H12 H68.
   apply written_8 in H8. apply written_12 in H12. apply written_68 in H68.
@@ -599,8 +651,7 @@ Qed.
 (* non-vacuity: a concrete cube with a negative first inline, a descending crossline axis that starts at 2^31-1, the
    interval 1001 us and the start time -32768 ms satisfies every hypothesis of the theorems above *)
 Definition nv_cube : cube :=
-  {| c_il0 := -5; c_ils := 3; c_iln := 4; c_xl0 := 2147483647; c_xls := -1000; c_xln := 3; c_i32 := true;
-     c_samples := segy_samples 1001 (-32768) 3 |}.
+  whole_cube (-5) 3 4 2147483647 (-1000) 3 true (segy_samples 1001 (-32768) 3).
 Definition nv_env : genv := reader_env (written_fields nv_cube) (version_to_encoding 0 2 9 false).
 Theorem geometry_nonvacuous :
   cube_ok nv_cube = true /\ zs_dom 1001 (-32768) 3 = true /\ c_samples nv_cube = segy_samples 1001 (-32768) 3 /\
